@@ -8,7 +8,8 @@ Line-protocol driver for the C12 model (merge of partial query results above the
   emit <id>                            IntermediateMetricContext.makeTaskResponse
   leaf <r> <cap> <payload>             leaf reduce over the grouped iterators (the `t:` items, in
                                        reduce order) + BuildResultSet for r receivers
-  result <id> all=<0|1> limit=<n> sel=<fn>:<field>,.. ord=<fn>:<field>:<0|1>,..
+  result <id> all=<0|1> limit=<n> sel=<fn>:<field>,.. ord=<fn>:<field>:<0|1>,.. [hav=<op>:<thr>]
+  plan-shape <live> <n>                flow.BuildPhysicalPlan: number of targets / executors / distinctness
   route <n> <shard>:<hash> ...         row routing (see Routing below)
 
   <payload> := (s:<field>:<ftype>:<fn>,<fn>.. | h:<tags>=<hash> | t:<tags> | f:<field>:<ftype>
@@ -202,7 +203,18 @@ def kv (w key : String) : Option String :=
 def tiesIn (ords : List OrdItem) (rows : List Row) : Bool :=
   rows.any (fun a => rows.any (fun b => a.tags != b.tags && !rowLess ords a b && !rowLess ords b a))
 
-def doResult (st : DSt) (c : Ctx) (all : Bool) (limit : Nat) (selS ordS : String) : String :=
+def parseHaving (s : String) : Option (Option Having) :=
+  if s = "-" then some none else
+  match s.splitOn ":" with
+  | [o, t] => do
+    let o ← o.toNat?
+    let t ← t.toInt?
+    if o = 0 || o > 4 then none
+    some (some { op := o, thr := t })
+  | _ => none
+
+def doResult (st : DSt) (c : Ctx) (all : Bool) (limit : Nat) (selS ordS : String)
+    (having : Option Having := none) : String :=
   if !c.done then "pending" else
   match c.err with
   | some .notFound => "err nf"
@@ -220,7 +232,8 @@ def doResult (st : DSt) (c : Ctx) (all : Bool) (limit : Nat) (selS ordS : String
         | some ords =>
           let full := a.keys.map (a.row c.hdrCap items)
           let orderDependent := limit < full.length && (ords.isEmpty || tiesIn ords full)
-          let rows := a.resultRows c.hdrCap items ords limit a.keys
+          if having.isSome && items.length != 1 then "bad-op" else
+          let rows := havingRows having (a.resultRows c.hdrCap items ords limit a.keys)
           if orderDependent then s!"count {rows.length}"
           else " | ".intercalate ("rows" :: (sortStr (rows.map (showRow st items))).map Prod.snd)
       | _, _ => "bad-op"
@@ -344,6 +357,21 @@ def step (st : DSt) (ws : List String) : DSt × String :=
       | some c, some a, some l => (st, doResult st c (a != 0) l s o)
       | _, _, _ => (st, "bad-op")
     | _, _, _, _, _ => (st, "bad-op")
+  | ["result", id, a, l, s, o, h] =>
+    match id.toNat?, kv a "all", kv l "limit", kv s "sel", kv o "ord", kv h "hav" with
+    | some id, some a, some l, some s, some o, some h =>
+      match getCtx st id, a.toNat?, l.toNat?, parseHaving h with
+      | some c, some a, some l, some hv => (st, doResult st c (a != 0) l s o hv)
+      | _, _, _, _ => (st, "bad-op")
+    | _, _, _, _, _, _ => (st, "bad-op")
+  | ["plan-shape", live, n] =>
+    -- BuildPhysicalPlan over `live` nodes for `n` compute nodes (any shuffle: the identity here;
+    -- `plan_has_one_executor` is why the shuffle does not matter)
+    match live.toNat?, n.toNat? with
+    | some live, some n =>
+      let plan := buildPlan (List.range live) n (List.range live)
+      (st, s!"targets={plan.length} executors={(executors plan).length} distinct={if (plan.map Prod.fst).eraseDups.length == plan.length then 1 else 0}")
+    | _, _ => (st, "bad-op")
   | "route" :: rest => (st, doRoute rest)
   | _ => (st, "bad-op")
 
